@@ -100,6 +100,10 @@ def problem(name, dtype):
         def f(t, y):
             return np.ones_like(y)
         return f
+    if name == "decay":        # y' = -y: the solution decays by orders of magnitude (spec/Accuracy.tla supplies an enclosure of exp(-T))
+        def f(t, y):
+            return -y
+        return f
     if name == "osck":         # the oscillator with its frequency as a CONSTANT of the system (OdeSystem.constants): q' = p, p' = -k q
         def f(t, y, k=1.0):
             return np.stack([y[1], -k * y[0]])
